@@ -40,6 +40,8 @@ def dispatch (req : Lean.Json) : Lean.Json :=
   | "c16.expand" => expandCase req
   | "c16.fires" => firesCase req
   | "c15.actend" => actEndCase req
+  | "c15.machine" => machineCase req
+  | "c16.sched" => schedCase req
   | "ping" => Lean.Json.mkObj [("pong", Lean.Json.bool true)]
   | c => Lean.Json.mkObj [("error", Lean.Json.str s!"unknown cmd {c}")]
 
